@@ -232,7 +232,7 @@ def inconsistentNames (names exported : List String) (envs : List (List (String 
     match G n with
     | none => []
     | some i => i.comps.map fun c => (c.base, [c.t.a, c.t.b, c.t.c, c.t.d])
-  let inl := envs.map fun e => inlineAll (fun n => exported.contains n) names (Env.ofList e)
+  let inl := envs.map fun e => Env.ofList (inlineAll (fun n => exported.contains n) names e)
   names.filter fun n =>
     match inl with
     | [] => false
@@ -261,12 +261,13 @@ def classify (d : Design) (fl : Flags) (st : State) (srcG : Env) (names : List S
 /-- The side conditions under which FontcProps.C12 `Step` covers the run of `process` on this input, evaluated:
     the source graph is acyclic (depth stabilises below the fuel `process` uses); names created by splitting are
     fresh; when flattening runs, no glyph reachable from the final glyph order is mixed. -/
-def sideConditions (fl : Flags) (exported incons names : List String) (env0 : Env) (st : State) : Option String :=
+def sideConditions (fl : Flags) (exported incons names : List String) (gl0 : Glyphs) (st : State) : Option String :=
+  let env0 := Env.ofList gl0
   let n := names.length
   if names.any fun g => depth env0 (n + 1) g != depth env0 n g || depth env0 n g ≥ n then some "source component graph is cyclic / deeper than the fuel"
   else if (st.names.drop n).any names.contains then some "a split glyph reuses an existing glyph name"
   else if fl.flatten && !fl.decomposeAll then
-    let pre := process { fl with flatten := false } (fun g => exported.contains g) (fun g => incons.contains g) names env0
+    let pre := process { fl with flatten := false } (fun g => exported.contains g) (fun g => incons.contains g) names gl0
     let reach := reachable pre.env (pre.names.length + 1) pre.order
     if reach.any fun g => match pre.env g with | some i => i.mixed | none => false then some "a mixed glyph is reachable when flatten runs"
     else none
@@ -279,9 +280,10 @@ def checkBuild (d : Design) (names exported incons : List String) (locs : List (
   let fl := Flags.ofBits bits
   -- correspondence with the gating model (default location)
   let dLoc := List.replicate d.axes.length (0 : Rat)
-  let env0 := Env.ofList (envAt d names dLoc)
-  let st := process fl (fun n => exported.contains n) (fun n => incons.contains n) names env0
-  if let some msg := sideConditions fl exported incons names env0 st then
+  let gl0 := envAt d names dLoc
+  let env0 := Env.ofList gl0
+  let st := process fl (fun n => exported.contains n) (fun n => incons.contains n) names gl0
+  if let some msg := sideConditions fl exported incons names gl0 st then
     r := { r with corr := some false, corrDetail := s!"{flagWord bits} model side condition: {msg}" }
   else if f.names != ".notdef" :: st.order then
     r := { r with corr := some false, corrDetail := s!"{flagWord bits} glyph order font {f.names} model {st.order}" }
@@ -453,8 +455,8 @@ def handlePure : Handler := fun s =>
       | some iorder, some ienvs =>
         if ienvs.length != envs.length then badInput "c12: location count" else
         -- model
-        let states := envs.map fun e => process fl (fun n => exported.contains n) (fun n => incons.contains n) names (Env.ofList e)
-        let side := (states.zip envs).findSome? fun (st, e) => sideConditions fl exported incons names (Env.ofList e) st
+        let states := envs.map fun e => process fl (fun n => exported.contains n) (fun n => incons.contains n) names e
+        let side := (states.zip envs).findSome? fun (st, e) => sideConditions fl exported incons names e st
         let corrMsg : Option String :=
           match side with
           | some m => some s!"model side condition: {m}"
